@@ -27,6 +27,7 @@ DECIDED = [
     "R-C16-EAGER (shared): eager responses raise _NoAction after exactly one action",
     "R-C02-CATCH (dependencies): the dependency gathers of Depends.resolve / actor_run do not turn provider failures into values (no return_exceptions), names and values come from one mapping (C18's chain rules reused)",
     "R-C02-CATCH (total helpers): helpers process() calls outside the outcome try (get_payload) contain no raise of their own",
+    "R-C02-LADDER (round 5): process() never re-binds the delivered key / payload / parameters (what is requeued is what was delivered); R-C02-CATCH: only a payload that IS a bucket reference (marker at its start) is looked up in the bucket broker (C07's marker rules reused)",
 ]
 NOT_DECIDED = ["'the worker keeps processing the other messages' as liveness", "actors that swallow CancelledError/BaseException"]
 ASSUMPTIONS = ["exceptions raised by non-call expressions (subscripts, attribute access) are not modelled as edges"]
@@ -50,6 +51,10 @@ def run(ctx: Ctx) -> None:
         ctx.check(not raises, "R-C02-CATCH", h, f"{h.short()} (called by process() outside the outcome try) raises nothing of its own", "a missing bucket etc. is a value, not an exception",
                   f"{h.short()} raises ({[unparse(r.ast)[:50] for r in raises]}) and is called by process() before the actor's try block: the exception escapes process(), the delivery gets "
                   "no terminal action at all (the message stays in flight)", instance=f"{h.short()}: total")
+    from .C07 import marker
+
+    with ctx.as_rule("R-C02-CATCH"):
+        marker(ctx, "R-C02-CATCH")  # only a payload that IS a bucket reference is looked up: an inline payload merely containing the marker text must not send process() to a missing bucket broker (it raises before the try)
     from .C18 import DEPENDS, chain
 
     with ctx.as_rule("R-C02-CATCH"):
